@@ -402,19 +402,25 @@ func (fc *FnCtx) autoInline(st *State, call *ast.CallExpr, fn *types.Func, pkgPa
 		}
 		restore()
 	}
+	savedUnmodelled := fc.unmodelled
+	fc.unmodelled = map[string]bool{}
 	outs, base := run(true)
+	bodyUnmodelled := fc.unmodelled
+	fc.unmodelled = savedUnmodelled
 	if len(fc.errors) > nErr || !acceptable(outs, base) {
 		giveUp()
 		return nil, false
 	}
-	// a body that calls something unmodelled gains nothing from being executed in place
-	for k := range fc.unmodelled {
-		if !unmodelledBefore[k] {
-			giveUp()
-			return nil, false
-		}
+	// a body that calls unmodelled code is executed for its results only: its own safety
+	// obligations (which would rest on unknown values) are not claimed, as before it was inlined
+	callsUnmodelled := len(bodyUnmodelled) > 0
+	if callsUnmodelled {
+		fc.noSafety++
 	}
 	outs, base = run(false)
+	if callsUnmodelled {
+		fc.noSafety--
+	}
 	if len(fc.errors) > nErr || !acceptable(outs, base) {
 		giveUp()
 		return nil, false
@@ -521,7 +527,30 @@ func (fc *FnCtx) havocCall(st *State, call *ast.CallExpr, what string) []Val {
 		}
 	}
 	for _, a := range call.Args {
-		_ = fc.tr(st, a)
+		v := fc.tr(st, a)
+		// an unmodelled callee may write the ELEMENTS of a slice it is handed (sort.Strings,
+		// copy-like helpers ...): the variable keeps its length, its contents are unknown
+		if t := fc.typeOf(a); t != nil {
+			if _, isSlice := t.Underlying().(*types.Slice); isSlice {
+				switch a.(type) {
+				case *ast.Ident, *ast.SelectorExpr:
+					switch v.S {
+					case SSL:
+						nv := fc.freshVal(st, "elems", SSL, t)
+						st.addAssume("(= (sllen " + nv.T + ") (sllen " + v.T + "))")
+						fc.assign(st, a, nv)
+					case SIL:
+						nv := fc.freshVal(st, "elems", SIL, t)
+						st.addAssume("(= (illen " + nv.T + ") (illen " + v.T + "))")
+						fc.assign(st, a, nv)
+					case SStr:
+						nv := fc.freshVal(st, "elems", SStr, t)
+						st.addAssume("(= (slen " + nv.T + ") (slen " + v.T + "))")
+						fc.assign(st, a, nv)
+					}
+				}
+			}
+		}
 	}
 	rs := fc.freshResults(st, call, "call")
 	if fn, _ := fc.calleeOf(call); fn != nil && fn.Pkg() != nil {
@@ -811,9 +840,17 @@ func (fc *FnCtx) trHelper(st *State, name string, call *ast.CallExpr) Val {
 		case *ast.SelectorExpr:
 			lit = fc.w.regexByName[exprString(a)]
 		case *ast.Ident:
-			for nm, l := range fc.w.regexByName {
-				if strings.HasSuffix(nm, "."+a.Name) {
+			// a local variable of the function under contract compiled from a literal
+			if fc.pkg != nil {
+				if l, ok := fc.w.localRegex[fc.pkg.Name+"."+fc.name+":"+a.Name]; ok {
 					lit = l
+				}
+			}
+			if lit == "" {
+				for nm, l := range fc.w.regexByName {
+					if strings.HasSuffix(nm, "."+a.Name) {
+						lit = l
+					}
 				}
 			}
 		}
